@@ -1,0 +1,16 @@
+//go:build verif
+
+// Contracts for package server (comment-only; read by /verif/govc).
+
+package server
+
+//@ // The embedding API accepts only configurations whose MTU the protocol supports (C14): the
+//@ // fragment and padding arithmetic, the 1500-byte receive buffer and the 16-bit length
+//@ // fields are proved for 1280 <= mtu <= 1500; 0 (unset) selects the default 1400.
+//@ func validateServerConfig(config *appctlpb.ServerConfig) (err error)
+//@   property C14 C20
+//@   mode int
+//@   partial
+//@   posts_only
+//@   noframe
+//@   ensures err == nil ==> config != nil && (old(config.Mtu) == nil || old(*config.Mtu) == 0 || (1280 <= old(*config.Mtu) && old(*config.Mtu) <= 1500))
